@@ -61,6 +61,7 @@ func (o *Out) Case(op string, impl string) int {
 	if strings.ContainsAny(op, "\n\r") || strings.ContainsAny(impl, "\n\r") {
 		panic("newline in protocol line: " + op)
 	}
+	op = strings.TrimRight(op, " ")
 	fmt.Fprintln(o.ops, op)
 	fmt.Fprintln(o.impl, impl)
 	if len(o.Samples) < 8 && o.n%97 == 0 {
